@@ -37,8 +37,6 @@ namespace sim { namespace aux {
 				packet r;
 				r.type = packet::type_t::error;
 				r.ec = boost::asio::error::connection_refused;
-				r.from = asio::ip::udp::endpoint(p.channel->visible_ep[1].address()
-					, p.channel->visible_ep[1].port());
 				r.overhead = 28;
 				r.hops = p.channel->hops[0];
 				r.channel = std::move(p.channel);
